@@ -206,7 +206,7 @@ class RunnerBase:
     for ev in self.real_log:
       if ev['lineage'] not in self.lin:
         self.lin[ev['lineage']] = len(self.lin)
-      ck = lambda ps: sorted(([i, self.canon[tok]] for i, tok in ps), key=lambda r: r[1])
+      ck = lambda ps: sorted(([i, self.canon.setdefault(tok, len(self.canon) + 1)] for i, tok in ps), key=lambda r: r[1])
       out.append({'inst': self.lin[ev['lineage']], 'env': self._canon_table(ev['table']),
                   'completed': ck(ev['completed']), 'active': ck(ev['active']),
                   'given_before': ck(ev['given_before'])})
@@ -550,6 +550,19 @@ def run_script(backend, kind, script):
 
 
 # ---------------------------------------------------------------------------- judging
+FAILS = []     # (number of API calls, key, what, case): reported shortest history first
+
+
+def fail(key, what, case):
+  FAILS.append((len(case.get('api_ops', [])), len(FAILS), key, what, case))
+
+
+def flush_fails(c):
+  for _, _, key, what, case in sorted(FAILS, key=lambda f: f[:2]):
+    c.prop_fail(key, what, case)
+  del FAILS[:]
+
+
 def case_of(rr, extra=None):
   d = {'runner': type(rr).__name__, 'backend': getattr(rr, 'backend', 'inram'), 'policy': rr.kind,
        'api_ops': rr.api_log, 'model_ops': rr.model_ops}
@@ -630,19 +643,19 @@ def judge_and_compare(c, runs, shortcut, stream):
     if not j['snapshotsWF']:
       raise core.InfraError('recorded snapshot with duplicate trial identity: ' + json.dumps(case)[:400])
     for e in rr.errors:
-      c.prop_fail('algorithm-invocation-failed', 'a suggest request failed inside the hosted policy, the algorithm was not updated: %s' % e['error'], case)
+      fail('algorithm-invocation-failed', 'a suggest request failed inside the hosted policy, the algorithm was not updated: %s' % e['error'], case)
     for i, e in enumerate(lg):
       prior = [p for p in lg[:i] if p['inst'] == e['inst']]
       if not j['activeFlags'][i]:
-        c.prop_fail('active-not-exact', 'update #%d: active list %s is not the ACTIVE trials of that moment (table %s)' % (i, e['active'], e['env']), dict(case, update=i))
+        fail('active-not-exact', 'update #%d: active list %s is not the ACTIVE trials of that moment (table %s)' % (i, e['active'], e['env']), dict(case, update=i))
       if not j['exactFlags'][i]:
         key, missing, extra = classify(dict(e, expected=j['expected'][i]), prior)
         c.dist['fail:%s:%s' % (stream, key)] = c.dist.get('fail:%s:%s' % (stream, key), 0) + 1
-        c.prop_fail(key, 'update #%d to designer lineage %d: completed list %s, but the completed trials not given before are %s (missing [id,uid] %s, unexpected %s)' % (
+        fail(key, 'update #%d to designer lineage %d: completed list %s, but the completed trials not given before are %s (missing [id,uid] %s, unexpected %s)' % (
             i, e['inst'], e['completed'], j['expected'][i], missing, extra), dict(case, update=i, missing=missing, extra=extra))
       given_log = sorted((p for q in prior for p in q['completed']), key=lambda r: r[1])
       if sorted(e['given_before'], key=lambda r: r[1]) != given_log:
-        c.prop_fail('designer-state-out-of-sync', 'update #%d: the restored designer remembers being given %s, the deliveries to its lineage were %s' % (i, e['given_before'], given_log), dict(case, update=i))
+        fail('designer-state-out-of-sync', 'update #%d: the restored designer remembers being given %s, the deliveries to its lineage were %s' % (i, e['given_before'], given_log), dict(case, update=i))
     if j['updateExact'] and not j['exactlyOnce']:
       raise core.InfraError('Lean judge: exact updates but not exactly-once (contradicts c12_exact_implies_once)')
     if (not j['updateExact']) != (not all(j['exactFlags'])):
@@ -691,24 +704,31 @@ def identify(c):
   return shortcut, corpus
 
 
-def run(c):
-  c.proof_stage()
-  from vcheck import svc
-  shortcut, corpus = identify(c)
+def replay_case(case):
+  """Re-execute the API calls of a replay / corpus file on the deployment it names."""
+  if case.get('runner') == 'InRamRunner':
+    rr = InRamRunner(case['policy'])
+  else:
+    rr = ServiceRunner(case.get('backend', 'ram'), case['policy'])
+  for op in case['api_ops']:
+    rr.api({k: v for k, v in op.items() if k not in ('result', 'updates')})
+  return rr
+
+
+def streams(c, shortcut, scale, tag=''):
   quick = c.tier == 'quick'
-  # ---- corpus: the witnesses, judged like any other history (reports the findings from a concrete replay)
-  judge_and_compare(c, corpus, shortcut, 'witness')
   # ---- stream 1: real service, the top trial is never deleted (the theorem's side condition)
-  n1 = 100 if quick else 900
+  n1 = int((100 if quick else 900) * scale)
   runs = []
   for i in range(n1):
     kind = ['partial', 'serial', 'partial', 'stateless'][i % 4]
     rr = ServiceRunner(['ram', 'sqlmem'][(i // 4) % 2], kind)
     gen_service_history(c.rng, rr, c.rng.randrange(6, 22), max_del=False)
     runs.append(rr)
-  judge_and_compare(c, runs, shortcut, 'service:top-kept')
-  # ---- stream 2: real service, deletions of the max-id trial (id re-use, shortcut)
-  n2 = 120 if quick else 1100
+  judge_and_compare(c, runs, shortcut, 'service:top-kept' + tag)
+  # ---- stream 2: real service, deletions of the max-id trial (id re-use, shortcut); every other history starts
+  #      in a randomised neighbourhood of the counterexample witnesses
+  n2 = int((120 if quick else 1100) * scale)
   runs = []
   for i in range(n2):
     kind = ['partial', 'serial', 'partial', 'stateless'][i % 4]
@@ -717,25 +737,51 @@ def run(c):
       scenario_prefix(c.rng, rr)
     gen_service_history(c.rng, rr, c.rng.randrange(2, 12) if i % 2 else c.rng.randrange(6, 22), max_del=True)
     runs.append(rr)
-  judge_and_compare(c, runs, shortcut, 'service:max-id-deleted')
+  judge_and_compare(c, runs, shortcut, 'service:max-id-deleted' + tag)
   # ---- stream 3: InRamPolicySupporter, policy kept alive / rebuilt / wiped / stateless
-  n3 = 100 if quick else 900
+  n3 = int((100 if quick else 900) * scale)
   runs = []
   for i in range(n3):
     rr = InRamRunner(['inram', 'partial', 'serial', 'stateless', 'partial'][i % 5])
     gen_inram_history(c.rng, rr, c.rng.randrange(6, 24))
     runs.append(rr)
-  judge_and_compare(c, runs, shortcut, 'inram')
-  if quick is False:
+  judge_and_compare(c, runs, shortcut, 'inram' + tag)
+  if not quick:
     # sqlite file backend, a few long histories
     runs = []
-    for i in range(20):
+    for i in range(int(20 * scale)):
       rr = ServiceRunner('sqlfile', ['partial', 'serial'][i % 2])
       gen_service_history(c.rng, rr, 60, max_del=(i % 4 == 3))
       runs.append(rr)
-    judge_and_compare(c, runs, shortcut, 'service:sqlfile-long')
-  svc.cleanup()
-  return c.finish(
+    judge_and_compare(c, runs, shortcut, 'service:sqlfile-long' + tag)
+  return n1, n2, n3
+
+
+def run(c):
+  import glob
+  import os
+  c.proof_stage()
+  from vcheck import svc
+  shortcut, corpus = identify(c)
+  # ---- corpus: the witnesses (and any stored case), judged like every other history — the findings are
+  #      reported from a concrete replay
+  for path in ([c.replay_path] if getattr(c, 'replay_path', None) else []) + sorted(glob.glob(os.path.join(core.VERIF, 'corpus', 'C12', '*.json'))):
+    blob = json.load(open(path))
+    corpus.append(replay_case(blob.get('case', blob)))
+  judge_and_compare(c, corpus, shortcut, 'witness')
+  n1, n2, n3 = streams(c, shortcut, 1.0)
+  flush_fails(c)
+  c.coverage_extra['streams'] = {'witness/corpus histories': len(corpus), 'service top-kept': n1, 'service max-id-deleted': n2, 'inram': n3}
+  c.coverage_extra['theorem_to_check'] = {
+      'c12_update_exact / c12_exactly_once': 'real logs of histories whose model replay reports top=true must be exact (any other outcome is a violation or, if the tie holds, an internal contradiction)',
+      'c12_update_exact_noshortcut': 'same with fresh=true when the current tree has no length shortcut',
+      'c12_restored_equals_live': 'service (restored per request, real JSON list from the metadata) and in-RAM (live) runs are compared with the same model',
+      'c12_shortcut_counterexample / c12_idreuse_counterexample': 'API-level witnesses replayed on RAM and SQLite with both serializable policy classes'}
+
+  def search():
+    streams(c, shortcut, 5.0 if c.tier == 'quick' else 2.0, tag=':search')
+    flush_fails(c)
+  code = c.finish(
       level='proof',
       rule='one evaluation = one real Designer.update judged by the Lean predicates (UpdateExact, ActiveExact, ExactlyOnce); '
            'a history counts as non-trivial when it contains a deletion, a metadata wipe / namespace switch or at least 3 updates; '
@@ -744,5 +790,9 @@ def run(c):
       assumptions=['trial identity is a token carried in parameter x (harness-created and designer-suggested trials); lineage = number kept in the recording designer\'s dumped state',
                    'status of a trial = proto state in the service table (SUCCEEDED/INFEASIBLE = completed) resp. vz.Trial.status with InRamPolicySupporter; completed trials always carry a final measurement or are infeasible',
                    'InRamPolicySupporter: no deletions (documented: trials are never removed)',
+                   'DesignerPolicy is built with use_seeding=False (with seeding the first request of an empty study with count 1 never reaches the designer)',
                    'a metadata wipe overwrites the policy\'s reserved keys with undecodable text or switches ns_root; writing a valid foreign id list into the reserved namespace is out of scope',
-                   'model variant (loaderLengthShortcut) identified by replaying witness (a) on the real service'])
+                   'model variant (loaderLengthShortcut) identified by replaying witness (a) on the real service'],
+      search=search)
+  svc.cleanup()
+  return code
